@@ -737,6 +737,11 @@ public:
           E.apvalue(*V, VD->getType());
           J.attributeEnd();
         }
+        E.stmtIds.clear();
+        E.nextStmt = 0;
+        J.attributeBegin("init");
+        E.emitStmt(VD->getInit());
+        J.attributeEnd();
       }
       if (VD->isThisDeclarationADefinition()) J.attribute("def", true);
       J.objectEnd();
